@@ -11,10 +11,15 @@ NodeClaims and outstanding grants).
 Part 2 (limits).  Model `Karp/Model/Limits.lean` (`remainingResources`, `filterByRemainingResources`,
 `subtractMax`, the early node-limit check, `Limits.ExceededBy`, the pool as a transition system over passes,
 launches and removals); specification `Karp/Spec/LimitsSpec.lean` (sum of node usages against the limits).
+
+Part 3 (a static pool next to the pod-driven provisioner; end of the file).  Model `Karp/Model/StaticPool.lean`
+(`nodepoolutils.IsStatic`, the NodePools `Provisioner.NewScheduler` offers to the solver, the routing of events to the
+static controllers); specification `Karp/Spec/StaticSpec.lean` (`replicaBased`, `checkPodPass`, `checkRoute`).
 -/
 import Karp.Proofs.PoolStateLemmas
 import Karp.Proofs.LimitsLemmas
 import Karp.Proofs.StaticPoolLemmas
+import Karp.Spec.StaticSpec
 import Karp.Gen.C03Pool
 import Karp.Gen.C03Limits
 
@@ -515,4 +520,77 @@ example : Within nodesKey pool0 cpu := by
 
 end NonVacuity
 
+/-! ## A static pool next to the pod-driven provisioner -/
+section StaticNextToPods
+open Karp.StaticPool Karp.Spec.Static
+
+/-- `nodepoolutils.IsStatic` is `spec.replicas != nil` -/
+theorem fact_static_means_replicas_set : Karp.Gen.C03Pool.isStaticMeansReplicasSet = true := by decide
+
+/-- `Provisioner.NewScheduler` keeps static NodePools away from the pod-driven scheduler -/
+theorem fact_new_scheduler_drops_static : Karp.Gen.C03Pool.newSchedulerDropsStatic = true := by decide
+
+/-- the code's notion of "static" is the specification's "replica-based": `spec.replicas` is set, whatever its value -/
+theorem C03_static_iff_replicas_set (r : Option Int) : isStatic r = replicaBased r := by
+  cases r <;> rfl
+
+/-- in particular a pool that is scaled to zero stays a static pool -/
+theorem C03_scaled_to_zero_is_static : isStatic (some 0) = true ∧ replicaBased (some 0) = true := ⟨rfl, rfl⟩
+
+/-- only pools without `spec.replicas` are offered to the pod-driven scheduler -/
+theorem C03_offered_pools_are_dynamic (pools : List PoolDecl) (q : PoolDecl) (h : q ∈ offered pools) :
+    q ∈ pools ∧ q.replicas = none := by
+  unfold offered at h
+  rw [List.mem_filter] at h
+  refine ⟨h.1, ?_⟩
+  cases hr : q.replicas with
+  | none => rfl
+  | some n => simp [isStatic, hr] at h
+
+/-- whatever the solver would like to open (ANY choice, any number of NodeClaims, any pods), a pod-driven pass adds
+    no NodeClaim to a pool that is replica-based — also when its replica count is 0 -/
+theorem C03_pod_pass_leaves_static_pools (pools : List PoolDecl) (choice : List Name) (p : Name)
+    (h : ∀ q ∈ pools, q.name = p → replicaBased q.replicas = true) :
+    addedTo p (podPassOpens pools choice) = 0 := by
+  unfold addedTo podPassOpens
+  rw [List.length_eq_zero_iff, List.filter_eq_nil_iff]
+  intro n hn hnp
+  rw [List.mem_filter] at hn
+  obtain ⟨_, hany⟩ := hn
+  rw [List.any_eq_true] at hany
+  obtain ⟨q, hq, hqn⟩ := hany
+  have hd := C03_offered_pools_are_dynamic pools q hq
+  have hname : q.name = p := by
+    have h1 : q.name = n := by simpa using hqn
+    have h2 : n = p := by simpa using hnp
+    exact h1.trans h2
+  have := h q hd.1 hname
+  rw [hd.2] at this
+  exact absurd this (by decide)
+
+/-- seen from the static pool the pass changes nothing the static invariants speak about: the pool state (counts and
+    reserved counter), the NodeClaims, the replica count and the limit are the same — so every `C03_static_*`
+    statement carries over histories with pod-driven passes in between -/
+theorem C03_pod_pass_keeps_static_world (w : World) (ran : Bool) :
+    (podPass w ran).st = w.st ∧ (podPass w ran).claims = w.claims ∧ (podPass w ran).replicas = w.replicas ∧
+    (podPass w ran).limit = w.limit := by
+  unfold podPass; cases ran <;> simp
+
+/-- the routing of the model meets the routing specification for every replica value and every NodeClaim -/
+theorem C03_route_meets_spec (r : Option Int) (labelled ofPool : Bool) :
+    let m := route r labelled ofPool
+    checkRoute r ofPool { isStatic := m.1, create := m.2.1, update := m.2.2.1, delete := m.2.2.2.1,
+                          generic := m.2.2.2.2.1, claimStatic := m.2.2.2.2.2.1 } = none := by
+  cases r <;> cases ofPool <;> simp [route, checkRoute, isStatic, replicaBased]
+
+/-- non-vacuity: a static pool scaled to zero (name 1) next to a dynamic pool (name 2); the solver would like two
+    NodeClaims in the static pool and one in the dynamic one: only the latter is opened -/
+example : podPassOpens [⟨1, some 0⟩, ⟨2, none⟩] [1, 2, 1] = [2] ∧
+    addedTo 1 (podPassOpens [⟨1, some 0⟩, ⟨2, none⟩] [1, 2, 1]) = 0 ∧
+    addedTo 2 (podPassOpens [⟨1, some 0⟩, ⟨2, none⟩] [1, 2, 1]) = 1 := by decide
+
+example : checkRoute (some 0) true { isStatic := false, create := false, update := false, delete := false, generic := false, claimStatic := 0 } ≠ none := by
+  decide
+
+end StaticNextToPods
 end Karp.C03
